@@ -196,3 +196,10 @@ package keeper
 //@ ensures [new-address-indexed] result1 == nil ==> kvget(aggregate(ctx), erc20Key(newERC20Addr)) == result.GetID()
 //@ ensures [all-denoms-reindexed] result1 == nil ==> forall j int :: 0 <= j && j < len(result.Denoms) ==> kvget(aggregate(ctx), denomKey(result.Denoms[j])) == result.GetID()
 //@ ensures [reject-clean-registry] result1 != nil ==> aggregate(ctx) == old(aggregate(ctx))
+
+// ---- genesis export of the registry: every stored pair is exported as the value it decodes to (C13) ----
+// verif:func (Keeper).GetAllTokenPairs
+//@ loop 1 continue [decoded-as-stored] tokenPairs[len(tokenPairs)-1] == pbdecode(iterator.Value(), types.TokenPair)
+
+// verif:func (Keeper).GetParams
+//@ ensures [read-only] unchanged(ctx)
